@@ -8,6 +8,12 @@ BANNED_READ = {"std::io::Read::read", "std::io::Read::read_vectored", "std::io::
 
 
 def run(ctx):
+    _run(ctx)
+    ctx.delegate("C07", ["C07.arith", "C07.panics", "C07.progress"], "C13.nopanic",
+                 "reading a truncated or failing source never panics: no unchecked arithmetic, index or unwrap on the reader graph, "
+                 "also after the first error", floor=40)
+
+def _run(ctx):
     F = ctx.facts("default")
     ctx.rule("C13.errs", "for every fallible call site on the reader call graph: when that call fails (truncated source, "
                          "failing read or seek), every abstract path through it makes the enclosing function return a value "
